@@ -29,7 +29,7 @@ ASSUMPTIONS = ['faults are injected at the open() boundary of the handlelimiter 
                'gzip and the file system are trusted']
 MIN_NONTRIVIAL = {'quick': 400, 'thorough': 20000}
 REQUIRED_MONITORS = ['inj:open_attempts', 'inj:faults_fired', 'hist:writes', 'oracle:files_compared', 'inj:emfile_fired',
-                     'inj:transient_fired', 'inj:permanent_fired', 'reopen_append', 'rlimit:real_emfile_seen', 'split:bams_compared', 'inj:errno:emfile:ENFILE', 'inj:errno:transient:EIO', 'inj:errno:transient:None', 'hist:stale_files_present']
+                     'inj:transient_fired', 'inj:permanent_fired', 'reopen_append', 'rlimit:real_emfile_seen', 'split:bams_compared', 'inj:errno:emfile:ENFILE', 'inj:errno:transient:EIO', 'inj:errno:transient:None', 'hist:stale_files_present', 'hist:closed_in_between_and_used_again']
 EXHAUSTIVE = {'quick': False, 'thorough': True}
 SHARD_TIMEOUT = {'quick': 600, 'thorough': 7200}
 
@@ -116,7 +116,7 @@ def read_back(path, method):
         return f.read()
 
 
-def execute(hl_mod, d, seq, maxHandles, pruneEvery, method, plan, continue_after_raise=True, stale=()):
+def execute(hl_mod, d, seq, maxHandles, pruneEvery, method, plan, continue_after_raise=True, stale=(), close_at=()):
     """Runs one write history against a fresh HandleLimiter under a fault plan.
     Returns (inj, history{path:[data]}, raised[(idx, path, exc, legit)], contents{path:str|None}, error or None)"""
     inj = Injector(dict(plan, permanent=os.path.join(d, plan['permanent']) if plan.get('permanent') else None))
@@ -142,6 +142,10 @@ def execute(hl_mod, d, seq, maxHandles, pruneEvery, method, plan, continue_after
         h = hl_mod.HandleLimiter(maxHandles=maxHandles, pruneEvery=pruneEvery, compressionLevel=1)
         for idx, (fname, data) in enumerate(seq):
             path = os.path.join(d, fname)
+            if idx in close_at:
+                # the writer is closed in between (end of a lane, a flush requested by the caller) and used again: what was written stays
+                with contextlib.redirect_stdout(io.StringIO()):
+                    h.close()
             nf = len(inj.fired)
             try:
                 with contextlib.redirect_stdout(io.StringIO()):
@@ -270,13 +274,16 @@ def run_case(case):
         acc.count('hist:stale_files_present', len(stale))
         settings['stale_files'] = stale[:8]
         settings['stale_files_all'] = stale
+        close_at = set(r.sample(range(1, len(seq)), min(len(seq) - 1, r.randint(1, 3)))) if case['i'] % 3 == 1 and len(seq) > 1 else set()
+        settings['closed_before_writes'] = sorted(close_at)
+        acc.count('hist:closed_in_between_and_used_again', 1 if close_at else 0)
         for pi, plan in enumerate(plans):
             if plan:
                 plan['errnos'] = {'emfile': r.choice(['EMFILE', 'EMFILE', 'ENFILE']),
                                   'transient': r.choice(['EMFILE', 'EMFILE', 'ENFILE', 'EIO', 'EINTR', 'ENOMEM', 'EAGAIN', None]),
                                   'permanent': r.choice(['EMFILE', 'EACCES', 'ENOSPC'])}
             with Scratch('c19') as d:
-                inj, hist, raised, contents, err = execute(hl_mod, d, seq, settings['maxHandles'], settings['pruneEvery'], settings['method'], plan, stale=stale)
+                inj, hist, raised, contents, err = execute(hl_mod, d, seq, settings['maxHandles'], settings['pruneEvery'], settings['method'], plan, stale=stale, close_at=close_at)
                 if decide(acc, seq, settings, plan, inj, hist, raised, contents, err, d):
                     acc.distinct += 1
         acc.sample = {'kind': case['kind'], 'writes': len(seq), 'files': nfiles, 'settings': settings, 'fault_plans': len(plans),
@@ -329,7 +336,8 @@ if mode == 'limiter':
         h.close()
 else:
     class Rec:
-        def __init__(self, cell, k, mate): self.tags = {'bi': cell, 'MX': 'NLA'}; self.s = f'@r{k}/{mate}\nACGT\n+\nIIII\n'
+        # two demultiplexing methods number their cells alike: a cell is (index, method), and so is its file
+        def __init__(self, cell, k, mate): self.tags = {'bi': cell, 'MX': ('NLA', 'CS2C8U6')[(k // 3) % 2]}; self.s = f'@r{k}/{mate}\nACGT\n+\nIIII\n'
         def __str__(self): return self.s
     fh = FastqHandle(os.path.join(d, 'out'), pairedEnd=True, single_cell=True, maxHandles=500)
     for k in range(700):
@@ -339,7 +347,7 @@ else:
             with contextlib.redirect_stdout(io.StringIO()):
                 fh.write(recs)
             for mate, rec in zip(('R1', 'R2'), recs):
-                hist.setdefault(os.path.join(d, f'out.{cell}.NLA.{mate}.fastq.gz'), []).append(str(rec))
+                hist.setdefault(os.path.join(d, f"out.{cell}.{rec.tags['MX']}.{mate}.fastq.gz"), []).append(str(rec))
         except Exception as e:
             raised.append([k, str(cell), repr(e)])
     with contextlib.redirect_stdout(io.StringIO()):
